@@ -667,6 +667,24 @@ def np_abs(I, x):
     raise Unsupported("np.abs of " + type(x).__name__)
 
 
+def np_reciprocal(I, x, out=None, **kw):
+    """numpy.reciprocal(x[, out]): 1/x elementwise; with out= the result is written INTO that array
+    (which may alias x or any other name bound to the same array)"""
+    from .floats import as_real
+    _use("reciprocal")
+    x = as_arr(I, x)
+    fx = x.at
+    I.path.oblige("zerodiv", f"{I.path.ordinal('zerodiv')}", spec.forall(0, x.n, lambda k: as_real(fx(k)) != 0))
+    f = lambda k: 1 / as_real(fx(k))
+    if out is not None:
+        if not isinstance(out, Arr):
+            raise Unsupported("reciprocal(out=...) with a non-array")
+        out.at = f
+        out.kind = "real"
+        return out
+    return Arr(x.n, f, "real")
+
+
 def np_where(I, c, a=None, b=None):
     if a is None:
         raise Unsupported("np.where with one argument")
@@ -717,13 +735,13 @@ def install(engine):
         "concatenate": F("np.concatenate", np_concatenate), "r_": R_(),
         "flatnonzero": F("np.flatnonzero", np_flatnonzero), "diff": F("np.diff", np_diff),
         "cumsum": F("np.cumsum", np_cumsum), "any": F("np.any", np_any), "all": F("np.all", np_all),
-        "sqrt": F("np.sqrt", np_sqrt), "where": F("np.where", np_where), "abs": F("np.abs", np_abs),
+        "sqrt": F("np.sqrt", np_sqrt), "where": F("np.where", np_where), "abs": F("np.abs", np_abs), "reciprocal": F("np.reciprocal", np_reciprocal),
         "min": F("np.min", np_min), "max": F("np.max", np_max),
         "copy": F("np.copy", lambda I, a, **k: Arr(a.n, a.at, a.kind, a.dtype)),
         "nan": NAN, "inf": Opaque("inf"),
         "int64": mk_dtype("int64"), "int32": mk_dtype("int32"), "float64": mk_dtype("float64"),
         "uint64": mk_dtype("uint64"), "bool_": mk_dtype("bool"), "int_": mk_dtype("int64"),
-        "ndarray": Opaque("np.ndarray"),
+        "ndarray": Opaque("np.ndarray"), "bytes_": Opaque("np.bytes_"),
         "iinfo": F("np.iinfo", lambda I, t: IInfo(dtype_name(t))),
     })
     engine.lib["numpy"] = np
